@@ -1149,7 +1149,10 @@ func (m *MapPollard) ingest(delHashes []Hash, proof Proof) error {
 	// Calculate and ingest the proof.
 	proofPos, _ := ProofPositions(hnp.positions, m.NumLeaves, m.TotalRows)
 	if TreeRows(m.NumLeaves) != m.TotalRows && len(proofPos) != len(proof.Proof) {
+		// trimProofPos works on positions of a forest with TreeRows(numLeaves) rows.
+		proofPos = translatePositions(proofPos, m.TotalRows, TreeRows(m.NumLeaves))
 		proofPos = m.trimProofPos(proofPos, m.NumLeaves)
+		proofPos = translatePositions(proofPos, TreeRows(m.NumLeaves), m.TotalRows)
 	}
 	for i, pos := range proofPos {
 		_, found := m.Nodes.Get(pos)
